@@ -38,3 +38,4 @@ INVARIANT DF_InplaceReturnsSelf_S
 INVARIANT DF_AffineExact_S
 INVARIANT DF_Integrate_S
 INVARIANT DF_SetSub_S
+INVARIANT DF_QueryPure_S
